@@ -23,7 +23,13 @@ PRE = ("Definition fp_eqb (o : fp_outcome (list float)) (e : Z * list float * Z 
        "  match o with\n"
        "  | FPRes v' it' w' => Z.eqb code 0%Z && Fs_eqb v' v && Z.eqb it' it && Bool.eqb w' w\n"
        "  | FPErr => Z.eqb code 1%Z | FPFuel => false end.\n"
-       "Definition NQ := NumQ.\n")
+       "Definition NQ := NumQ.\n"
+       "Definition fclose (a b : float) : bool := PrimFloat.leb (PrimFloat.abs (a - b)) (0x1p-30 * (1 + PrimFloat.abs b))%float.\n"
+       "Definition ig_eqb (o : option (list float * bool * Z)) (e : Z * list float * bool * Z) : bool :=\n"
+       "  let '(code, v, cv, it) := e in\n"
+       "  match o with\n"
+       "  | Some (v', cv', it') => Z.eqb code 0%Z && list_eqb fclose v' v && Bool.eqb cv' cv && Z.eqb it' it\n"
+       "  | None => Z.eqb code 1%Z end.\n")
 
 
 def fl(x):
@@ -108,6 +114,7 @@ def run(ctx):
         return T
 
     cases, meta = [], []
+    ig_cases, ig_meta = [], []
     for _ in range(5000 if thorough else 320):
         n = rng.randrange(1, 5)
         kind = rng.choice(["contraction", "contraction", "contraction", "stochastic", "expanding", "rational", "exact_tol"])
@@ -144,6 +151,20 @@ def run(ctx):
         meta.append((inp, (code, v, calls, warned)))
         ctx.case(("fp_iter", kind, A, b, v0, tol, max_iter), nontrivial=(code == 0 and calls >= 2), sample={"call": inp, "impl": [v, calls, warned]})
         ctx.count("fp_iteration:%s:%s" % (kind, "ValueError" if code else ("warned" if warned else "converged")))
+        if kind in ("contraction", "stochastic", "rational") and max_iter <= 50 and len(ig_cases) < (900 if thorough else 120):
+            # imitation-game method on the same map: returned point (2^-30 relative), converged (from the warning), T calls = 2*iterate
+            c2, v2, calls2, warned2, _rk = run_fp(T, np.array(v0, dtype=float), tol, max_iter, "imitation_game")
+            ig_cases.append(tup(flist2(A), flist(b), flist(v0), fl(tol), zl(max_iter),
+                                tup(zl(c2), flist(v2), blit(not warned2), zl(calls2 // 2))))
+            ig_meta.append((dict(inp, method="imitation_game"), (c2, v2, calls2, warned2)))
+            ctx.case(("fp_ig_affine", kind, A, b, v0, tol, max_iter), nontrivial=(c2 == 0 and calls2 >= 4))
+            ctx.count("fp_imitation_game:affine:%s" % ("ValueError" if c2 else ("warned" if warned2 else "converged")))
+            if c2 == 0 and not warned2:
+                vq2 = [F(x) for x in v2]
+                Tv2 = [sum(F(A[i][j]) * vq2[j] for j in range(n)) + F(b[i]) for i in range(n)]
+                if max(abs(x - y) for x, y in zip(Tv2, vq2)) > F(tol) * (1 + Fraction(1, 10**9)) + Fraction(1, 10**13) * (1 + max(abs(x) for x in vq2)):
+                    ctx.fail("fp_imitation_game_residual", "returned point has residual > error_tol without a warning",
+                             dict(inp, method="imitation_game"), {"v": v2}, tol)
         if code:
             if max_iter >= 1:
                 ctx.fail("fp_valueerror", "ValueError on valid arguments", inp, None, None)
@@ -178,6 +199,15 @@ def run(ctx):
     for i in bad:
         inp, out = meta[i]
         ctx.mismatch("C15.Model.compute_fixed_point (PrimFloat instance, affine T) vs _compute_fp.compute_fixed_point", inp, out)
+    IMPORTS2 = IMPORTS + "\nFrom QE Require Import Gen.Consts."
+    ok = ("fun c => let '(A, b, v0, tol, mi, e) := c in "
+          "ig_eqb (compute_fixed_point_igm piv_TOL_PIV_f piv_TOL_RATIO_DIFF_f PrimFloat.abs (affine A b) v0 tol mi) e")
+    bad = ctx.coq_check("compute_fixed_point_imitation_game", IMPORTS2,
+                        "list (list float) * list float * list float * float * Z * (Z * list float * bool * Z)", ok, ig_cases,
+                        chunk=10, preamble=PRE)
+    for i in bad:
+        inp, out = ig_meta[i]
+        ctx.mismatch("C15.Model.compute_fixed_point_igm (PrimFloat instance, affine T) vs _compute_fp.compute_fixed_point(method='imitation_game')", inp, out)
 
     # ================================================================ compute_fixed_point: oracle on other maps, both methods
     def maps(n):
@@ -277,6 +307,7 @@ def run(ctx):
         return gains
 
     n_games = 150 if thorough else 14
+    mt_cases, mt_meta = [], []
     for N in (2, 3, 4):
         for _ in range(n_games):
             nums, arr, style = rand_game(N, 4 if N < 4 else 3)
@@ -286,7 +317,18 @@ def run(ctx):
             inits.append(tuple(np.array([x / sum(ws) for x in ws]) for ws in w))
             for init in inits:
                 for eps in (1e-2, 1e-3, 1e-4):
-                    NE, res = mclennan_tourky(g, init=init, epsilon=eps, max_iter=rng.choice([200, 200, 10]), full_output=True)
+                    NE, res = mclennan_tourky(g, init=init, epsilon=eps, max_iter=rng.choice([200, 200, 10, 25]), full_output=True)
+                    if int(res.num_iter) <= 25 and len(mt_cases) < (600 if thorough else 90):
+                        flats = [[float(v) for v in g.players[i].payoff_array.ravel()] for i in range(N)]
+                        ini = (0,) * N if init is None else init
+                        x_init = []
+                        for i_, a_ in enumerate(ini):
+                            x_init += ([1.0 if k_ == a_ else 0.0 for k_ in range(nums[i_])] if isinstance(a_, int) else [float(v) for v in a_])
+                        mt_cases.append(tup(flist2(flats), natlist(nums), flist(x_init), fl(eps), fl(float(g.players[0].tol)), zl(int(res.max_iter)),
+                                            tup(zl(0), flist([float(v) for a_ in NE for v in a_]), blit(bool(res.converged)), zl(int(res.num_iter)))))
+                        mt_meta.append(({"solver": "mclennan_tourky", "nums_actions": nums, "payoffs": arr.tolist(), "epsilon": eps,
+                                         "init": x_init, "max_iter": int(res.max_iter)},
+                                        ([x.tolist() for x in NE], bool(res.converged), int(res.num_iter))))
                     inp = {"solver": "mclennan_tourky", "nums_actions": nums, "payoffs": arr.tolist(), "epsilon": eps,
                            "init": None if init is None else [x.tolist() if hasattr(x, "tolist") else x for x in init], "max_iter": int(res.max_iter)}
                     ctx.case(("mt", nums, arr.tolist(), str(inp["init"]), eps, int(res.max_iter)), nontrivial=True,
@@ -305,6 +347,14 @@ def run(ctx):
                     if worst > F(eps) * (1 + Fraction(1, 10**9)) + Fraction(1, 10**12):
                         ctx.fail("mt_not_epsilon_nash", "converged=True but some pure deviation gains more than epsilon", inp,
                                  {"NE": [x.tolist() for x in NE], "max_gain": float(worst)}, eps)
+
+    ok = ("fun c => let '(g, nums, x0, eps, brtol, mi, e) := c in "
+          "ig_eqb (mclennan_tourky piv_TOL_PIV_f piv_TOL_RATIO_DIFF_f g nums x0 eps brtol mi) e")
+    bad = ctx.coq_check("mclennan_tourky", IMPORTS2, "list (list float) * list nat * list float * float * float * Z * (Z * list float * bool * Z)",
+                        ok, mt_cases, chunk=8, preamble=PRE)
+    for i in bad:
+        inp, out = mt_meta[i]
+        ctx.mismatch("C15.Model.mclennan_tourky (PrimFloat instance) vs mclennan_tourky.mclennan_tourky", inp, out)
 
     # ---------------- correspondence of the predicate and of the best-response selection (Q instance, exact data)
     cases, meta = [], []
@@ -351,7 +401,8 @@ def run(ctx):
         inp, out = meta[i]
         ctx.mismatch("C15.Model.is_epsilon_nash/best_response_selection (Q instance) vs mclennan_tourky._is_epsilon_nash/_best_response_selection", inp, out)
 
-    # ================================================================ polym_lcp_solver (oracle only)
+    # ================================================================ polym_lcp_solver
+    pl_cases, pl_meta = [], []
     for _ in range(500 if thorough else 40):
         N = rng.choice([2, 3, 3, 4])
         nums = [rng.randrange(2, 4) for _ in range(N)]
@@ -360,6 +411,13 @@ def run(ctx):
         pg = PolymatrixGame(pm)
         for start in itertools.product(*[range(n) for n in nums]):
             NE, res = polym_lcp_solver(pg, starting_player_actions=list(start), max_iter=20000, full_output=True)
+            if len(pl_cases) < (1500 if thorough else 150):
+                pms = "[" + "; ".join("[" + "; ".join(("(@nil (list float))" if i == j else flist2(pm[(i, j)].tolist())) for j in range(N)) + "]"
+                                      for i in range(N)) + "]"
+                pl_cases.append(tup(natlist(nums), natlist(start), pms, zl(20000),
+                                    tup(zl(0), flist([float(v) for a_ in NE for v in a_]), blit(bool(res.converged)), zl(int(res.num_iter)))))
+                pl_meta.append(({"solver": "polym_lcp_solver", "nums_actions": nums, "polymatrix": {"%d,%d" % k: v.tolist() for k, v in pm.items()},
+                                 "start": list(start)}, ([x.tolist() for x in NE], bool(res.converged), int(res.num_iter))))
             inp = {"solver": "polym_lcp_solver", "nums_actions": nums, "polymatrix": {"%d,%d" % k: v.tolist() for k, v in pm.items()}, "start": list(start)}
             ctx.case(("polym", nums, inp["polymatrix"], start), nontrivial=True,
                      sample={"call": {"nums": nums, "start": list(start)}, "impl": [[x.tolist() for x in NE], bool(res.converged), int(res.num_iter)]})
@@ -379,6 +437,15 @@ def run(ctx):
             if worst > Fraction(1, 10**8):
                 ctx.fail("polym_not_nash", "converged=True but the profile is not a Nash equilibrium of the polymatrix game (1e-8)", inp,
                          {"NE": [x.tolist() for x in NE], "max_gain": float(worst)}, None)
+
+    ok = ("fun c => let '(nums, starts, pms, mi, e) := c in "
+          "ig_eqb (match polym_lcp_solver piv_TOL_PIV_f piv_TOL_RATIO_DIFF_f nums starts pms 2%float mi with "
+          "Some (ne, cv, it) => Some (concat ne, cv, it) | None => None end) e")
+    bad = ctx.coq_check("polym_lcp_solver", IMPORTS2, "list nat * list nat * list (list (list (list float))) * Z * (Z * list float * bool * Z)",
+                        ok, pl_cases, chunk=15, preamble=PRE)
+    for i in bad:
+        inp, out = pl_meta[i]
+        ctx.mismatch("C15.Model.polym_lcp_solver (PrimFloat instance) vs howson_lcp.polym_lcp_solver", inp, out)
 
 
 def replay(data):
